@@ -112,8 +112,12 @@ func runLifecycles(R *res.Result, seed uint64, rounds int) {
 			}
 			for _, p := range tr.Final().Peers {
 				if ak := w.Ack[p.Store]; !before[p.Store] && (ak == nil || ak.State != metapb.StoreState_Up) {
+					st := "unknown"
+					if ak != nil {
+						st = ak.State.String()
+					}
 					R.Violate("C11:"+name+":peer-moved-to-store-not-up-as-acknowledged",
-						fmt.Sprintf("%s puts a peer on store %d, whose acknowledged state is %v (history: %s)", sim10.Summary(op), p.Store, ak, life10.Describe(h)), replay)
+						fmt.Sprintf("%s puts a peer on store %d, whose acknowledged state is %s (history: %s)", sim10.Summary(op), p.Store, st, life10.Describe(h)), replay)
 				}
 			}
 		}
